@@ -1168,6 +1168,7 @@ class ExpressionValueBC(ExpressionBC):
         *,
         rank: int = 0,
         value: float | str | Callable = 0,
+        const: float | str | Callable = 0,
         target: ExpressionBCTargetType = "value",
         user_funcs: dict[str, Callable] | None = None,
         value_cell: int | None = None,
@@ -1178,6 +1179,7 @@ class ExpressionValueBC(ExpressionBC):
             upper,
             rank=rank,
             value=value,
+            const=const,
             target=target,
             user_funcs=user_funcs,
             value_cell=value_cell,
@@ -1205,6 +1207,7 @@ class ExpressionDerivativeBC(ExpressionBC):
         *,
         rank: int = 0,
         value: float | str | Callable = 0,
+        const: float | str | Callable = 0,
         target: ExpressionBCTargetType = "derivative",
         user_funcs: dict[str, Callable] | None = None,
         value_cell: int | None = None,
@@ -1215,6 +1218,7 @@ class ExpressionDerivativeBC(ExpressionBC):
             upper,
             rank=rank,
             value=value,
+            const=const,
             target=target,
             user_funcs=user_funcs,
             value_cell=value_cell,
